@@ -130,7 +130,14 @@ func (d *drv) dispatch(i int) {
 		}
 		ev["werr"] = false
 		if n != nil {
-			cctx, cancel := context.WithTimeout(ctx, 10*time.Second)
+			// a block the node does not have is fetched from the other miners with retries for as long as the
+			// worker's context lasts (30 s in the node); nobody answers here, so a short context gives the same
+			// outcome sooner
+			wait := 10 * time.Second
+			if b, _ := mc.GetBlock(ctx, n.BlockID); b == nil {
+				wait = 700 * time.Millisecond
+			}
+			cctx, cancel := context.WithTimeout(ctx, wait)
 			err := mc.VerifNotarizationProcess(cctx, n)
 			cancel()
 			ev["werr"] = err != nil
@@ -223,7 +230,9 @@ func (d *drv) makeBlock(gen, r int, seed int64, prev *blk, variant int) *blk {
 	b.Round = rn
 	emd := datastore.GetEntityMetadata("txn")
 	mw.Redis.FlushAll()
-	if variant > 0 && variant < 7 {
+	// every variant carries its own transaction: two blocks of one generator for the same round, seed and previous
+	// block never have the same hash (the hash covers the creation second, not the attached tickets / signature)
+	if variant > 0 {
 		c := mw.Clients[(variant-1)%len(mw.Clients)]
 		nonce := int64(0)
 		if s, err := chain.GetStateById(prev.src.ClientState, c.ID); err == nil && s != nil {
